@@ -153,7 +153,7 @@ pub fn run(ctx: &Ctx) -> Report {
     crate::shim::bypass(|| std::fs::create_dir_all(scratch.p("TMP")).unwrap());
     let root = scratch.p("w");
     crate::shim::bypass(|| std::fs::create_dir_all(&root).unwrap());
-    let cases = ctx.share(ctx.scale(6_000, 120_000)) as u32;
+    let cases = ctx.share(ctx.scale(40_000, 400_000)) as u32;
     let rep_cell = std::cell::RefCell::new(&mut rep);
     let found = prop_search(ctx, 15, cases, 600, &gen_hist(), |h, exploring| {
         let r = judge(&root, h);
